@@ -140,3 +140,50 @@ let run_main () =
   P.printf "OUT %d%s\n" !nout (Buffer.contents out);
   P.printf "CONSUMED %d\n" (ncons - SL.length !inp.Isa.console);
   if !modeldiff >= 0 then P.printf "MODELDIFF %d\n" !modeldiff
+
+
+(* ---- c15trace <bin> <maxsteps>: the leading columns of every trace line according to the ISA run and the
+   symbol table found in the binary (SimModel.trace_symbol): "n pc sym+off|- OPC nib" ---- *)
+let parse_symtab (file : string) : (string * int) list =
+  let len = Stdlib.String.length file in
+  let byte i = if i < len then Char.code (Stdlib.String.get file i) else 0 in
+  let w p = byte p lor (byte (p+1) lsl 8) lor (byte (p+2) lsl 16) lor (byte (p+3) lsl 24) in
+  let nwords = w 0 in
+  let p = ref (4 + 4 * nwords) in
+  if !p + 4 > len then [] else begin
+    let n = w !p in p := !p + 4;
+    let names = Array.make n "" in
+    for i = 0 to n - 1 do
+      let b = Buffer.create 8 in
+      while !p < len && byte !p <> 0 do Buffer.add_char b (Char.chr (byte !p)); incr p done;
+      incr p; names.(i) <- Buffer.contents b
+    done;
+    let m = w !p in p := !p + 4;
+    let l = ref [] in
+    for _ = 0 to m - 1 do
+      let idx = w !p and off = w (!p + 4) in p := !p + 8;
+      l := (names.(idx), off) :: !l
+    done;
+    SL.rev !l
+  end
+
+let trace_main () =
+  let bin = Sys.argv.(2) in
+  let max_steps = int_of_string Sys.argv.(3) in
+  let file = read_file bin in
+  let words = image_words file in
+  let tab = SL.map (fun (n, o) -> (coq_of_ostring n, zi o)) (parse_symtab file) in
+  let cons = let b = Buffer.create 64 in (try while true do Buffer.add_channel b stdin 1 done with End_of_file -> ()); Buffer.contents b in
+  let inp = ref { Isa.console = SL.init (Stdlib.String.length cons) (fun i -> zi (Char.code (Stdlib.String.get cons i))); Isa.files = (fun _ -> []) } in
+  let st = ref (Isa.boot (SL.map zi words)) in
+  let n = ref 0 and fin = ref false in
+  while not !fin && !n < max_steps do
+    let pcv = iz !st.Isa.pc in
+    let b = iz (Isa.fetch !st) in
+    let sym = match SimModel.trace_symbol tab (zi pcv) with
+      | Some (nm, off) -> P.sprintf "%s+%d" (ostring_of_coq nm) (iz off) | None -> "-" in
+    P.printf "%d %d %s %d %d\n" !n pcv sym (b / 16) (b land 15);
+    (match Isa.step !st !inp with
+     | Isa.Ok ((s', inp'), ev) -> st := s'; inp := inp'; incr n; (match ev with Isa.Exit _ -> fin := true | _ -> ())
+     | Isa.Undefined _ -> fin := true)
+  done
